@@ -351,6 +351,19 @@ inline void checkJsonDoc(Ctx& C, const MValue& m, int sto, size_t fullLimit) {
     os << doc;
     if (os.str() != compact) C.failKey(kc + "|dst=operator<<", "dst-differs", firstDiff(os.str(), compact));
   }
+  {  // a stream with a pending field width and fill character receives the same bytes (the writer's output is unformatted)
+    std::ostringstream os;
+    os.width(std::streamsize(compact.size() + 3));
+    os.fill('#');
+    os << doc;
+    if (os.str() != compact) C.failKey(kc + "|dst=operator<<width", "dst-differs", firstDiff(os.str(), compact));
+    std::ostringstream os2;
+    os2.width(std::streamsize(pretty.size() + 3));
+    os2.fill('#');
+    size_t r2 = serializeJsonPretty(v, os2);
+    if (r2 != os2.str().size()) C.failKey(kp + "|dst=ostream-width", "count", "returned " + std::to_string(r2) + " but " + std::to_string(os2.str().size()) + " bytes were delivered");
+    if (os2.str() != pretty) C.failKey(kp + "|dst=ostream-width", "dst-differs", firstDiff(os2.str(), pretty));
+  }
   // (c) destinations, (d) capacities
   checkDestinations(C, key, OpJson, v, compact);
   checkDestinations(C, key, OpPretty, v, pretty);
@@ -380,7 +393,7 @@ inline void runJson(Ctx& C) {
     checkJsonDoc(C, m, sto, fullLimit);
   }, &bounds);
   for (auto& b : bounds) C.bound(b);
-  C.bound("per document: serializeJson and serializeJsonPretty into std::string, large char buffer, std::ostringstream, byte-wise custom writer, "
+  C.bound("per document: serializeJson and serializeJsonPretty into std::string, large char buffer, std::ostringstream (also with a pending field width and fill), byte-wise custom writer, "
           "writer that stops accepting, Arduino Print and String stubs, char/unsigned char/signed char arrays of 1 2 8 16 24 64 bytes, and every "
           "capacity 0..length+2 (texts longer than " + std::to_string(fullLimit) + " bytes: 0..66, 255..257, length/2, length-2..length+2) as an exact heap block (void*) "
           "and as a window of a sentinel-filled buffer (char*)");
